@@ -100,6 +100,10 @@ fn child_body(engine: &mut Engine, case: &Value, chan: &mut std::fs::File, out_f
         let end = fd_len(out_fd);
         let panics = take_panics();
         let mut rec = json!({"u": i, "o0": start, "o1": end});
+        let rr = steel::verif::RECYCLER_RUNS.load(std::sync::atomic::Ordering::Relaxed);
+        if rr > 0 {
+            rec["rr"] = json!(rr);
+        }
         let emits = crate::hostfns::take_emits();
         if !emits.is_empty() {
             rec["emits"] = json!(emits);
